@@ -157,6 +157,69 @@ def build_docs(p, c, defaults):
     return base, with_value(c["y"]), with_value(c["alt"])
 
 
+def build_list_docs(p, m, defaults):
+    """base / file / over documents of a case with several variables on one list of structs (m: TLC MCASE)."""
+    steps = p["addr"]
+    key = "".join(m["key"])
+    tag = p["tag"]
+    tpl = TEMPLATES.get(list_name(steps + [{"t": "i"}], len(steps)))
+    if tpl is None:
+        raise vf.Infra("no template item for the list %s" % tag)
+    other = {"runOnUnread": "echo base"}
+    base = {}
+    node = base
+    dnode = defaults
+    path = []
+    for n, s in enumerate(steps):
+        last = n == len(steps) - 1
+        if s["t"] == "f":
+            path.append(s["s"])
+            dnode = dnode.get(s["s"]) if isinstance(dnode, dict) else None
+            if last:
+                if m["base"] == "file":
+                    node[s["s"]] = [tpl(j) for j in range(m["blen"])]
+                continue
+            nxt = steps[n + 1]
+            if nxt["t"] == "i":
+                otpl = TEMPLATES.get(list_name(steps, n + 1))
+                node[s["s"]] = [otpl(j) for j in range(2)]
+            else:
+                node[s["s"]] = {}
+            node = node[s["s"]]
+        elif s["t"] == "k":
+            path.append(key)
+            dnode = None
+            node[key] = dict(other)
+            node = node[key]
+        else:
+            path.append(0)
+            dnode = None
+            node = node[0]
+    dlist = strip_nulls(copy.deepcopy(dnode)) if isinstance(dnode, list) else []
+
+    def with_values(sel):
+        doc = copy.deepcopy(base)
+        node = doc
+        for el in path[:-1]:
+            node = node[el]
+        if path[-1] not in node:
+            node[path[-1]] = copy.deepcopy(dlist)
+        lst = node[path[-1]]
+        for a in m["assigns"]:
+            while len(lst) <= a["idx"]:
+                lst.append({})
+            item = lst[a["idx"]]
+            if a["subtag"]:
+                sub = item.setdefault(a["subtag"], [])
+                while len(sub) <= a["subn"]:
+                    sub.append({})
+                item = sub[a["subn"]]
+            item[a["f"]] = a[sel]
+        return doc
+
+    return base, with_values("y"), with_values("alt")
+
+
 def run(ctx):
     d = ctx.specdir()
 
@@ -221,11 +284,28 @@ def run(ctx):
         gen = keep
         ctx.note("replaying a seeded sample of %d of the generated cases (every parameter x value class at least once)" % len(gen))
 
+    # several variables on one list of structs: every scenario of every struct-list parameter, in both tiers
+    multi = sorted(g.tagged("MCASE"), key=lambda c: json.dumps(c, sort_keys=True))
+    nlists = len([p for p in params if p["kind"] == "structlist"])
+    if len(set(m["pid"] for m in multi)) != nlists or len(multi) < 6 * nlists:
+        raise vf.Infra("the generator emitted list scenarios for %d of %d struct-list parameters (%d cases)" % (
+            len(set(m["pid"] for m in multi)), nlists, len(multi)))
+    for m in multi:
+        gen.append({"pid": m["pid"], "vn": "list:%s:%s" % (m["scen"], m["base"]), "x": True, "np": False, "why": "", "key": m["key"],
+                    "entry": "present" if m["key"] else "none", "lists": [], "k": [], "sk": [], "exact": True, "e": "",
+                    "y": [[a["idx"], a["subtag"], a["subn"], a["f"], a["y"]] for a in m["assigns"]], "multi": m})
+    ctx.set("cases_several_variables_on_one_list", len(multi))
+
     cases = []
     for i, c in enumerate(gen):
         p = byid[c["pid"]]
-        base, filed, over = build_docs(p, c, defaults)
         c["id"] = i
+        if "multi" in c:
+            base, filed, over = build_list_docs(p, c["multi"], defaults)
+            cases.append({"id": i, "base": base, "file": filed, "over": over,
+                          "env": {"".join(a["k"]): a["e"] for a in c["multi"]["assigns"]}})
+            continue
+        base, filed, over = build_docs(p, c, defaults)
         env = {"".join(c["k"]): c["e"]} if c["exact"] else {}
         if c["sk"]:
             env["".join(c["sk"])] = "1"
